@@ -67,13 +67,16 @@ Proof.
   destruct (if sel_plain sel then filter_files off (fsfx sp) fixed rel flt (fsfx sp) else Some []) as [r1|] eqn:E1; [|discriminate].
   destruct (if sel_gz sel then filter_files off (fsfx sp) fixed rel flt (Some gz_sfx) else Some []) as [r2|] eqn:E2; [|discriminate].
   destruct (if sel_rcur sel then filter_files off (fsfx sp) fixed rel (IFEq cur_infix) (fsfx sp) else Some []) as [r3|] eqn:E3; [|discriminate].
-  destruct (match sel_custom sel with Some c => filter_files off (fsfx sp) fixed rel (IFEq c) (fsfx sp) | None => Some [] end) as [r4|] eqn:E4; [|discriminate].
+  destruct (match sel_custom sel with
+            | Some c => if sel_rcur sel && beq c cur_infix then Some [] else filter_files off (fsfx sp) fixed rel (IFEq c) (fsfx sp)
+            | None => Some [] end) as [r4|] eqn:E4; [|discriminate].
   cbn [app_opt] in H. injection H as <-.
   apply R. repeat (apply in_app_or in I; destruct I as [I|I]).
   - destruct (sel_plain sel); [eapply F; eauto | injection E1 as <-; destruct I].
   - destruct (sel_gz sel); [eapply F; eauto | injection E2 as <-; destruct I].
   - destruct (sel_rcur sel); [eapply F; eauto | injection E3 as <-; destruct I].
-  - destruct (sel_custom sel); [eapply F; eauto | injection E4 as <-; destruct I].
+  - destruct (sel_custom sel) as [cu|]; [|injection E4 as <-; destruct I].
+    destruct (sel_rcur sel && beq cu cur_infix); [injection E4 as <-; destruct I | eapply F; eauto].
 Qed.
 
 (* the family test of the listing against the documented pattern fixed [_] infix [.restart-NNNN] [.suffix]:
